@@ -190,9 +190,7 @@ theorem inv_newLit {n a} (r : Nat) (h : Inv n a) : Inv n (a.newLit r) := by
   unfold LSt.newLit
   split
   · exact h
-  · split
-    · exact h
-    · split <;> exact h
+  · split <;> exact h
 
 theorem inv_endLit {n a} (h : Inv n a) : Inv n a.endLit.2 := by
   unfold LSt.endLit
